@@ -108,7 +108,7 @@ for vid, r in results.items():
         if "draw budget exceeded" in why: rej_budget[f] = rej_budget.get(f, 0) + 1
         else: (rej_panic if why.startswith("panic") else rej_err).setdefault(f, []).append(why[:160])
 if rej_panic: log("functions on which the obfuscator crashed in some variant (counted as rejected): %s" % {f: len(v) for f, v in rej_panic.items()})
-BASELINE_BROKEN = ("cfRangeStringUTF8", "cfDefer", "cfDeferRecoverNamed", "cfSwapLoop", "cfRotate3", "cfSelectBlocking")
+BASELINE_BROKEN = ("cfRangeStringUTF8", "cfDefer", "cfDeferRecoverNamed", "cfSelectBlocking")
 rej_compile = {}
 def compile_and_run(vid):
     """compile + run one variant; functions whose obfuscated form does not compile are rejected by a build error
